@@ -7,6 +7,7 @@ import (
 	"fmt"
 	"math"
 	"math/bits"
+	"sort"
 	"strconv"
 	"strings"
 )
@@ -120,6 +121,7 @@ func (t *Term) IsConst() bool { return t.op == OConst }
 func (t *Term) W() int        { return t.sort.W }
 
 type TermTable struct {
+	pinned map[*Term]*Term // terms fixed to a constant by the path condition
 	tab    map[string]*Term
 	nextID int
 	vars   []*Term          // declared variables in creation order
@@ -129,7 +131,41 @@ type TermTable struct {
 }
 
 func NewTermTable() *TermTable {
-	return &TermTable{tab: map[string]*Term{}, ufs: map[string]*Term{}}
+	return &TermTable{tab: map[string]*Term{}, ufs: map[string]*Term{}, pinned: map[*Term]*Term{}}
+}
+
+// rep replaces a term that the path condition pins to a constant by that constant.
+func (tt *TermTable) rep(t *Term) *Term {
+	if t.op == OConst || len(tt.pinned) == 0 {
+		return t
+	}
+	if c, ok := tt.pinned[t]; ok {
+		return c
+	}
+	return t
+}
+
+// Pin records that the path condition implies t == c (c constant).
+func (tt *TermTable) Pin(t, c *Term) {
+	if t.op == OConst || c.op != OConst {
+		return
+	}
+	tt.pinned[t] = c
+	if t.sort.K != SBV || t.sort.W > 64 || c.wide != nil {
+		return
+	}
+	switch t.op {
+	case OZExt:
+		iw := t.args[0].sort.W
+		tt.Pin(t.args[0], tt.BV(iw, c.cval))
+	case OConcat:
+		lw := t.args[1].sort.W
+		tt.Pin(t.args[1], tt.BV(lw, c.cval))
+		tt.Pin(t.args[0], tt.BV(t.args[0].sort.W, c.cval>>uint(lw)))
+	case OSExt:
+		iw := t.args[0].sort.W
+		tt.Pin(t.args[0], tt.BV(iw, c.cval))
+	}
 }
 
 func mask(w int) uint64 {
@@ -238,11 +274,49 @@ func signExt(v uint64, w int) int64 {
 
 // ---- BV ops ----
 
+// addN builds the AC-normal form of a sum: operands flattened, constants folded,
+// non-constant operands sorted by id.
+func (tt *TermTable) addN(w int, parts []*Term) *Term {
+	var leaves []*Term
+	var c uint64
+	for _, p := range parts {
+		if p.op == OAdd {
+			for _, q := range p.args {
+				if q.IsConst() {
+					c += q.cval
+				} else {
+					leaves = append(leaves, q)
+				}
+			}
+		} else if p.IsConst() {
+			c += p.cval
+		} else {
+			leaves = append(leaves, p)
+		}
+	}
+	c &= mask(w)
+	sort.SliceStable(leaves, func(i, j int) bool { return leaves[i].id < leaves[j].id })
+	if len(leaves) == 0 {
+		return tt.BV(w, c)
+	}
+	if c != 0 {
+		leaves = append(leaves, tt.BV(w, c))
+	}
+	if len(leaves) == 1 {
+		return leaves[0]
+	}
+	return tt.mk(OAdd, bv(w), 0, 0, "", leaves...)
+}
+
 func (tt *TermTable) Bin(op Op, a, b *Term) *Term {
+	a, b = tt.rep(a), tt.rep(b)
 	if a.sort != b.sort {
 		panic(fmt.Sprintf("sort mismatch in op %d: %v vs %v", op, a.sort, b.sort))
 	}
 	w := a.sort.W
+	if op == OAdd && w <= 64 {
+		return tt.addN(w, []*Term{a, b})
+	}
 	if a.IsConst() && b.IsConst() && w <= 64 {
 		x, y := a.cval, b.cval
 		switch op {
@@ -430,6 +504,7 @@ func (tt *TermTable) Bin(op Op, a, b *Term) *Term {
 }
 
 func (tt *TermTable) Not(a *Term) *Term {
+	a = tt.rep(a)
 	if a.IsConst() && a.sort.W <= 64 {
 		return tt.BV(a.sort.W, ^a.cval)
 	}
@@ -439,6 +514,7 @@ func (tt *TermTable) Not(a *Term) *Term {
 	return tt.mk(ONot, a.sort, 0, 0, "", a)
 }
 func (tt *TermTable) Neg(a *Term) *Term {
+	a = tt.rep(a)
 	if a.IsConst() && a.sort.W <= 64 {
 		return tt.BV(a.sort.W, -a.cval)
 	}
@@ -446,6 +522,7 @@ func (tt *TermTable) Neg(a *Term) *Term {
 }
 
 func (tt *TermTable) Extract(a *Term, hi, lo int) *Term {
+	a = tt.rep(a)
 	w := a.sort.W
 	if hi >= w || lo < 0 || hi < lo {
 		panic(fmt.Sprintf("bad extract %d %d of width %d", hi, lo, w))
@@ -506,7 +583,15 @@ func (tt *TermTable) Extract(a *Term, hi, lo int) *Term {
 		}
 	case ONot:
 		return tt.Not(tt.Extract(a.args[0], hi, lo))
-	case OAdd, OSub, OMul:
+	case OAdd:
+		if lo == 0 && w <= 64 {
+			parts := make([]*Term, len(a.args))
+			for i, x := range a.args {
+				parts[i] = tt.Extract(x, hi, 0)
+			}
+			return tt.addN(hi+1, parts)
+		}
+	case OSub, OMul:
 		if lo == 0 {
 			// low bits of modular arithmetic only depend on low bits of the operands
 			return tt.Bin(a.op, tt.Extract(a.args[0], hi, 0), tt.Extract(a.args[1], hi, 0))
@@ -524,6 +609,7 @@ func (tt *TermTable) Extract(a *Term, hi, lo int) *Term {
 }
 
 func (tt *TermTable) Concat(a, b *Term) *Term {
+	a, b = tt.rep(a), tt.rep(b)
 	w := a.sort.W + b.sort.W
 	if a.IsConst() && b.IsConst() {
 		if w <= 64 {
@@ -573,6 +659,7 @@ func wideConcat(a, b *Term) []byte {
 }
 
 func (tt *TermTable) ZExt(a *Term, n int) *Term {
+	a = tt.rep(a)
 	if n == 0 {
 		return a
 	}
@@ -588,6 +675,7 @@ func (tt *TermTable) ZExt(a *Term, n int) *Term {
 	return tt.mk(OZExt, bv(a.sort.W+n), n, 0, "", a)
 }
 func (tt *TermTable) SExt(a *Term, n int) *Term {
+	a = tt.rep(a)
 	if n == 0 {
 		return a
 	}
@@ -617,6 +705,7 @@ func (tt *TermTable) Resize(a *Term, w int, signed bool) *Term {
 }
 
 func (tt *TermTable) Ite(c, a, b *Term) *Term {
+	c, a, b = tt.rep(c), tt.rep(a), tt.rep(b)
 	if c.IsConst() {
 		if c.cval == 1 {
 			return a
@@ -650,6 +739,7 @@ func constEq(a, b *Term) bool {
 }
 
 func (tt *TermTable) Eq(a, b *Term) *Term {
+	a, b = tt.rep(a), tt.rep(b)
 	if a.sort != b.sort {
 		panic(fmt.Sprintf("Eq sort mismatch %v %v", a.sort, b.sort))
 	}
@@ -671,6 +761,15 @@ func (tt *TermTable) Eq(a, b *Term) *Term {
 				return a
 			}
 			return tt.BNot(a)
+		}
+	}
+	if a.sort.K == SBV && a.sort.W <= 64 {
+		// x == -s  <=>  x + s == 0
+		if a.op == ONeg {
+			return tt.Eq(tt.Bin(OAdd, a.args[0], b), tt.BV(a.sort.W, 0))
+		}
+		if b.op == ONeg {
+			return tt.Eq(tt.Bin(OAdd, b.args[0], a), tt.BV(a.sort.W, 0))
 		}
 	}
 	if a.IsConst() {
@@ -702,6 +801,7 @@ func (tt *TermTable) Eq(a, b *Term) *Term {
 }
 
 func (tt *TermTable) Cmp(op Op, a, b *Term) *Term {
+	a, b = tt.rep(a), tt.rep(b)
 	if a.sort != b.sort {
 		panic("Cmp sort mismatch")
 	}
